@@ -20,6 +20,7 @@ verus! {
 //@map reqrep::Topic => ReqrepTopic
 //@mapcall into => vx_into
 //@mapcall context => anyhow_context
+//@mapcall with_context => anyhow_with_context
 //@rename server/src/topic/pubsub.rs :: Result => SResult
 //@rename server/src/topic/reqrep.rs :: Result => SResult
 //@rename server/src/topic/pubsub.rs :: Socket => PubsubSocket
@@ -206,7 +207,7 @@ pub open spec fn all_topics_closed(m: Map<TopicName, TopicChannel>) -> bool { fo
     ensures true,
 //@end
 
-//@fn server/src/server.rs :: - :: handle_stream [props=C17 C07 C11] [guards=ts]
+//@fn server/src/server.rs :: - :: handle_stream [props=C17 C07 C11] [guards=*]
     requires
         stream.answer() is Nothing,
 //@hint before "^"
